@@ -28,7 +28,10 @@ def replay_parse(obligation: str = "", model: Optional[Dict[str, str]] = None, *
     p = _pattern_of(model)
     if p is not None:
         cands.append(p)
+        # the counter-model of a unit on an inner function (cursor in the middle of a pattern): embed it
+        cands += ["a{" + p + "}", "a{1," + p + "}", "[" + p + "]", "(" + p + ")", "a" + p]
     cands += NEAR_MISSES
+    cands += ["a{\u00b2}", "a{1,\u00b3}", "a{\u0663}"]
     for pat in cands:
         try:
             regex, error = retree.parse([pat])
